@@ -62,6 +62,18 @@ int poll_set_new_evt(poll_priv_t *priv, ev_src_t *tmp, const enum op_type flag) 
         tmp->ev = NULL;
         
         /*
+         * Source may have an event pending in the batch currently being processed
+         * (eg: its module was stopped by a callback called for a previous event):
+         * invalidate it, as the source may not be there anymore when its turn comes.
+         */
+        for (int i = 0; ep->pevents && i < priv->max_events; i++) {
+            if (ep->pevents[i].data.ptr == tmp) {
+                ep->pevents[i].data.ptr = NULL;
+                ep->pevents[i].events = 0;
+            }
+        }
+        
+        /*
          * Automatically close internally used FDs 
          * for special internal fds 
          */
